@@ -14,7 +14,7 @@ package prelude
 //@ func (time.Time).Sub
 //@   ensures result == arg0 - arg1
 //@ func (time.Time).UnixMicro
-//@   ensures result == arg0 / 1000 || true
+//@   ensures result == arg0 / 1000
 //@ func (time.Time).Unix
 //@   effectfree
 //@ func (time.Duration).Milliseconds
